@@ -2,6 +2,7 @@ package main
 
 import (
 	"fmt"
+	"go/ast"
 	"go/constant"
 	"go/token"
 	"go/types"
@@ -241,7 +242,15 @@ func (vc *FuncVC) call(b *ssa.BasicBlock, idx int, ins ssa.Instruction, c *ssa.C
 		vc.frameCheckMods(b, pos, mods, key)
 		vc.havoc(st, mods, true)
 	}
+	// results that the contract defines outright (`r == E` with E free of results) become definitions, not
+	// fresh constants with an equation: the solvers then see one term instead of two congruent ones
+	defined := vc.definedResults(con, vars, rtypes, st, pre)
 	rs := mkResults(st)
+	for i, d := range defined {
+		if d.S != "" && i < len(rs) && d.Sort == rs[i].Sort {
+			rs[i] = vc.define(fmt.Sprintf("r_%s_%d", shortCallee(siteKey), i), d)
+		}
+	}
 	setResults(rs)
 	postVars := map[string]SVal{}
 	for k, v := range vars {
@@ -575,4 +584,81 @@ func (vc *FuncVC) regexOfValue(v ssa.Value, depth int) (string, bool) {
 		}
 	}
 	return "", false
+}
+
+func conjuncts(e ast.Expr, out []ast.Expr) []ast.Expr {
+	switch x := e.(type) {
+	case *ast.ParenExpr:
+		return conjuncts(x.X, out)
+	case *ast.BinaryExpr:
+		if x.Op == token.LAND {
+			return conjuncts(x.Y, conjuncts(x.X, out))
+		}
+	}
+	return append(out, e)
+}
+
+// definedResults finds, per result, a defining equation `name == E` among the top-level conjuncts of the
+// callee's ensures clauses, where E can be evaluated without any result variable.
+func (vc *FuncVC) definedResults(con *Contract, vars map[string]SVal, rtypes *types.Tuple, st, pre *State) []Term {
+	out := make([]Term, rtypes.Len())
+	names := map[string]int{}
+	for i := 0; i < rtypes.Len(); i++ {
+		names[fmt.Sprintf("result%d", i)] = i
+		if i == 0 {
+			names["result"] = 0
+		}
+		if n := rtypes.At(i).Name(); n != "" && n != "_" {
+			names[n] = i
+		}
+	}
+	for i, n := range con.ResultNames {
+		if i < rtypes.Len() {
+			names[n] = i
+		}
+	}
+	for _, en := range con.Ensures {
+		for _, cj := range conjuncts(en.Expr, nil) {
+			be, ok := cj.(*ast.BinaryExpr)
+			if !ok || be.Op != token.EQL {
+				continue
+			}
+			for _, pair := range [][2]ast.Expr{{be.X, be.Y}, {be.Y, be.X}} {
+				id, ok := pair[0].(*ast.Ident)
+				if !ok {
+					continue
+				}
+				idx, isRes := names[id.Name]
+				if !isRes || out[idx].S != "" {
+					continue
+				}
+				if _, shadow := vars[id.Name]; shadow {
+					continue
+				}
+				mentions := false
+				ast.Inspect(pair[1], func(n ast.Node) bool {
+					if x, ok := n.(*ast.Ident); ok {
+						if _, r := names[x.Name]; r {
+							if _, sh := vars[x.Name]; !sh {
+								mentions = true
+							}
+						}
+					}
+					return true
+				})
+				if mentions {
+					continue
+				}
+				env := &Env{vc: vc, st: st, old: pre, vars: vars, ctx: en.Ctx}
+				saveErrs := len(vc.errs)
+				v, err := env.Eval(pair[1])
+				vc.errs = vc.errs[:saveErrs]
+				if err != nil || v.T.Sort == "Nil" {
+					continue
+				}
+				out[idx] = v.T
+			}
+		}
+	}
+	return out
 }
